@@ -141,6 +141,17 @@ Theorem C11_closed_total : forall fuel root ks res,
   exists k', In k' res /\ parent (bk_key k') = c.
 Proof. exact extract_closed_total. Qed.
 
+(* productivity of the WHOLE extracted rule set: every class mentioned by an extracted key - as its
+   parent or as one of its children - pumps w.r.t. the extracted keys alone (C11_productive is the
+   special case of the start class when it is mentioned).  Closedness is a corollary (a pumping class
+   has a key), and it is the form C02 / C19 ask for ("every class of the rule set pumps").  From
+   minimality: a key mentioning a non-pumping class could be dropped (Forest/ExtractorTheorems.v
+   extract_all_classes_pump; the run of check() discharged by C03 termination). *)
+Theorem C11_all_classes_pump : forall fuel root ks res,
+  buckets_ok ks -> Pk root ks -> extract fuel root ks = Ok res ->
+  forall k c, In k res -> mentions_class c k -> pumps (map bk_key res) c.
+Proof. exact extract_all_classes_pump_total. Qed.
+
 (* everything together, no fuel and no "the run returned" hypothesis *)
 Theorem C11_total_correct : forall fuel root ks,
   buckets_ok ks -> Pk root ks ->
@@ -361,6 +372,9 @@ Proof. repeat split; vm_compute; reflexivity. Qed.
 Example C11_closed_total_nonvacuous :
   forall k c, In k c11_res -> mentions_class c k -> exists k', In k' c11_res /\ parent (bk_key k') = c.
 Proof. exact (C11_closed_total 500 0%nat c11_ks c11_res c11_buckets c11_Pk c11_extract). Qed.
+Example C11_all_classes_pump_nonvacuous :
+  forall k c, In k c11_res -> mentions_class c k -> pumps (map bk_key c11_res) c.
+Proof. exact (C11_all_classes_pump 500 0%nat c11_ks c11_res c11_buckets c11_Pk c11_extract). Qed.
 Example C11_total_correct_nonvacuous :
   exists res, extract 7 0 c11_ks = Ok res /\
     (forall k, In k res ->
@@ -703,6 +717,7 @@ Print Assumptions C11_never_out_of_fuel.
 Print Assumptions C11_fuel_irrelevant.
 Print Assumptions C11_total.
 Print Assumptions C11_closed_total.
+Print Assumptions C11_all_classes_pump.
 Print Assumptions C11_total_correct.
 Print Assumptions C11_harness_never_out_of_fuel.
 Print Assumptions C11_minimal_one_rule_per_class_total.
